@@ -218,7 +218,8 @@ Check (C18_address_record_components :
     (ends_with_p2p cs = false -> of_maddr (enc_maddr (record_new p cs)) = Some p) /\
     (ends_with_p2p cs = true -> record_new p cs = cs)).
 Check (C18_derive_sha256 :
-  forall enc, derive sha256 enc = if len enc <=? 42 then mkPid 0 enc else mkPid 18 (sha256 enc)).
+  forall enc, derive sha256 enc = (if len enc <=? 42 then mkPid 0 enc else mkPid 18 (sha256 enc)) /\
+              derive_fast enc = derive sha256 enc).
 Check (C18_derived_roundtrip :
   forall enc, bytes_ok enc = true ->
     valid (derive sha256 enc) = true /\
